@@ -576,6 +576,45 @@ theorem parse_nonstrict_gains (id : Nat) (V : Vocab) (hi : Inv V) (hs : V.strict
 or was handed (a copy was stored) do not reach the store. -/
 theorem mutate_noop (w : World) (x : Which) : step w (.mutate x) = (w, .done) := rfl
 
+/-! ### the vocabulary a `create_subset` call hands out -/
+
+theorem subsetLoop_result (id sid : Nat) (V S : Vocab) (keys : List String) (hS : Inv S) (S' : Vocab)
+    (h : (subsetLoop id sid V S keys).1 = .ok S') : Inv S' ∧ S'.keys = S.keys ++ keys := by
+  induction keys generalizing V S with
+  | nil =>
+    simp only [subsetLoop] at h
+    cases h
+    exact ⟨hS, by simp⟩
+  | cons k ks ih =>
+    unfold subsetLoop at h
+    split at h
+    · cases h
+    · split at h
+      · cases h
+      · rename_i S1 hadd
+        obtain ⟨hi, hk⟩ := ih _ S1 (add_inv hadd hS) h
+        obtain ⟨_, _, _, hkeys, _⟩ := add_growsBy hadd
+        refine ⟨hi, ?_⟩
+        rw [hk, hkeys]
+        simp
+
+/-- **subset_consistent.**  Whatever the history of the parent and whatever keys are requested, a
+subset that is handed out is a consistent vocabulary (keys, index table and matrix agree, no name
+twice) and lists exactly the requested keys in the requested order. -/
+theorem subset_consistent (id sid : Nat) (V : Vocab) (keys : List String) (S : Vocab)
+    (h : (createSubset id sid V keys).1 = .ok S) : Inv S ∧ S.keys = keys := by
+  have := subsetLoop_result id sid V (emptyLike V) keys (inv_initial _ rfl rfl rfl) S h
+  simpa [emptyLike] using this
+
+/-- **subset_rejects_repeated_key.**  A request that names a key twice is never answered with a subset. -/
+theorem subset_rejects_repeated_key (id sid : Nat) (V : Vocab) (keys : List String) (hd : ¬ keys.Nodup) :
+    ∃ e, (createSubset id sid V keys).1 = .error e := by
+  cases h : (createSubset id sid V keys).1 with
+  | error e => exact ⟨e, rfl⟩
+  | ok S =>
+    obtain ⟨hi, hk⟩ := subset_consistent id sid V keys S h
+    exact absurd (hk ▸ hi.nodup) hd
+
 /-! ### non-vacuity: concrete worlds and histories -/
 
 def exV (strict : Bool) (gen : List Vec) : Vocab :=
@@ -602,6 +641,13 @@ example : abs ((run exW exOps).get .b) = [("X", [0, 0, 0, 1])] := by decide +ker
 example : trace exW exOps =
     [.ptr (some ⟨[1, 1, 0, 0], some 0, 0⟩), .err .spaParse, .err .validation, .err .validation, .err .spaParse,
      .done, .err .key, .err .stopIteration, .err .spaParse, .err .validation, .err .stopIteration] := by
+  decide +kernel
+
+/-- non-vacuity of `subset_consistent` / `subset_rejects_repeated_key`: a subset is handed out for distinct
+keys, and refused for `['A', 'B', 'A']` -/
+example : ((createSubset 0 2 ((run exW exOps).get .a) ["B", "A"]).1.toOption.map (·.keys)) = some ["B", "A"] := by
+  decide +kernel
+example : (createSubset 0 2 ((run exW exOps).get .a) ["A", "B", "A"]).1.toOption.isNone = true := by
   decide +kernel
 
 end C09
